@@ -19,6 +19,7 @@ import collections
 import logging
 import os
 import sys
+import traceback
 from typing import Optional
 
 import tabulate
@@ -143,7 +144,14 @@ class BenchmarkActor(actor.RallyActor):
 
     @actor.no_retry("race control")  # pylint: disable=no-value-for-parameter
     def receiveMsg_TaskFinished(self, msg, sender):
-        self.coordinator.on_task_finished(msg.metrics)
+        try:
+            self.coordinator.on_task_finished(msg.metrics)
+        except BaseException:
+            # The failure notification sent by @no_retry travels via the driver. The benchmark may complete (and the driver exit)
+            # before it is back here, hence we remember the failure and notify the start sender right away.
+            self.coordinator.error = True
+            self.send(self.start_sender, actor.BenchmarkFailure(traceback.format_exc()))
+            raise
         # We choose *NOT* to reset our own metrics store's timer as this one is only used to collect complete metrics records from
         # other stores (used by driver and mechanic). Hence there is no need to reset the timer in our own metrics store.
         self.send(self.mechanic, mechanic.ResetRelativeTime(msg.next_task_scheduled_in))
